@@ -157,7 +157,7 @@ def run(res, args):
                     if t[3] == 1:
                         stats['anonymous_headers_checked'] += 1
                         xmlid = bytes.fromhex(lang['pub']['xml']) if lang['pub']['xml'] else None
-                        if w[1] != 1 or (xmlid and xmlid in w and xmlid not in re.sub(rb'<!DOCTYPE[^>]*>', b'', xs[j])):
+                        if w[1] != 1 or (xmlid and xmlid in w and xmlid not in re.sub(rb'<!DOCTYPE[^>]*>', b'', xmlgen.as_utf8(xs[j]))):
                             report(f'anonymous document (options {t}) carries a public identifier', w.hex()[:120], exc)
                     if ref is None:
                         ref = (t, ev, w)
@@ -183,6 +183,10 @@ def run(res, args):
         return [owner[i][0] for i in cd]
 
     ddocs = enc_opts(xs0, not quick)
+    if quick:
+        # documents with embedded sub-documents always run under all 32 tuples (their nested encoders
+        # inherit options of their own)
+        enc_opts([x for x in docs if b'<DevInf' in x or b'<MgmtTree' in x], True)
     if corr_diff and not viol and quick:
         # search (DESIGN 6.1): the conversion no longer behaves like the model but no sampled document showed
         # an option dependence: the whole corpus and the differing documents under all 32 tuples
